@@ -24,12 +24,22 @@
   is the stretching mark's tiles plus the whole word whose advances decide the tiling, and every glyph of that span outside the
   mark's cluster ends up UNSAFE_TO_BREAK.
 
+  Fourth part (`C03_value_worked_iff` … `C03_pair_kerning_flagged`): GPOS value records and PairPos.  `apply_to_pos` returns
+  `worked`; PairPos flags the pair unsafe_to_break iff one of the two records worked (GposFlag.lean, tied to the crate by the
+  `gpos-value-worked` / `gpos-pair-flags` streams).  `worked` is true exactly when an enabled component of the record — a
+  static value on an axis the direction uses, or a Device / VariationIndex table the face state (ppem, variation
+  coordinates) makes live — is present; hence a record that moved the glyph says so, hence a pair whose kerning comes from a
+  device delta alone is flagged like any other kerned pair.  `C03_gen_value_worked` ties the statement to the compiled crate:
+  the `worked` value the crate returns on every unit record x direction x face state (regenerated) is the model's.
+
   `Upd l l' p q test upd`: `l'` is `l` with `upd` applied to exactly the entries `p ≤ j < q` that pass `test`
   (same length, everything else untouched).  `neCl m x` = "cluster of x differs from m", `orMask f x` = `x.mask |= f`.
 -/
 import RbModel.Lemmas.Flags
 import RbModel.Lemmas.FlagCarry
 import RbModel.Lemmas.Stch
+import RbModel.Lemmas.GposFlag
+import RbModel.Gen.GposWorked
 
 namespace RbModel.Flags
 
@@ -522,3 +532,72 @@ example : ∃ b : Buf, Buf.WF b ∧ b.idx < b.len ∧ b.outLen = 0 ∧ b.idx + 1
     ⟨by decide, by decide, by simp, by decide⟩, by decide, rfl, by decide, by decide⟩
 
 end RbModel.Flags
+
+/-! ### GPOS value records and PairPos: who reports `worked`, which pairs are flagged -/
+namespace RbModel.GposFlag
+open RbModel RbModel.Gpos RbModel.Flags
+
+/-- **`apply_to_pos` returns `worked = true` iff an enabled component of the record is present**: a non-zero static
+    placement, a non-zero static advance on the axis of the run, or a Device / VariationIndex table on a face whose
+    state (`useX` = `ppem_x != 0 || coords != 0`, `useY` likewise) makes it live — placements on either axis, advances
+    on the axis of the run.  For every record, direction, face state and position. -/
+theorem C03_value_worked_iff (v : ValueRecordD) (useX useY : Bool) (d : Dir) (q : Pos) :
+    (valueApplyToPosD v useX useY d q).2 = true ↔
+      (v.xPlacement ≠ 0 ∨ v.yPlacement ≠ 0 ∨ (d.isHorizontal = true ∧ v.xAdvance ≠ 0) ∨
+       (d.isHorizontal = false ∧ v.yAdvance ≠ 0) ∨
+       (useX = true ∧ v.xPlaDevice.isSome = true) ∨ (useY = true ∧ v.yPlaDevice.isSome = true) ∨
+       (d.isHorizontal = true ∧ useX = true ∧ v.xAdvDevice.isSome = true) ∨
+       (d.isHorizontal = false ∧ useY = true ∧ v.yAdvDevice.isSome = true)) :=
+  valueApplyToPosD_worked v useX useY d q
+
+/-- **a record that moved the glyph reports it** (whatever moved it: a static value or a device / variation delta) -/
+theorem C03_value_moved_worked (v : ValueRecordD) (useX useY : Bool) (d : Dir) (q : Pos)
+    (h : (valueApplyToPosD v useX useY d q).1 ≠ q) : (valueApplyToPosD v useX useY d q).2 = true :=
+  valueApplyToPosD_moved v useX useY d q h
+
+-- non-vacuity: a record whose ONLY content is an x-advance device (all static parts zero) moves a glyph of a horizontal run
+example : (valueApplyToPosD { xAdvDevice := some (-200) } true false .ltr { xa := 600 }).1 ≠ { xa := 600 } := by decide
+
+/-- **the compiled crate's `worked` is the model's** on every unit record (one component: static value, live device,
+    device whose delta is 0) x horizontal / vertical x ppem_x set / unset x ppem_y set / unset — the table is regenerated
+    from the crate on every run (tools/gens/gposworked.py), so a branch of `apply_to_pos` that stops reporting breaks this. -/
+theorem C03_gen_value_worked : ∀ r ∈ Gen.GposWorked.probes, probeWorked r = r.2.2.2.2 := by decide
+
+/-- **PairPos: a pair that moved a glyph is flagged**: when the two records changed any position, `PairAdjustment::apply`
+    calls `unsafe_to_break(idx, second + 1)` (and then `finish`, which only adds the flags of the wider span when record 2
+    is present). -/
+theorem C03_pair_flag_call (b b' : Buf) (p p' : Array Pos) (j : Nat) (v1 v2 : ValueRecordD) (useX useY : Bool) (d : Dir)
+    (ap : Bool) (h : pairPosApply b p (.records j v1 v2) useX useY d = .ok (b', p', ap)) (hne : p' ≠ p) :
+    ∃ b1, b.unsafeToBreak b.idx (some (j + 1)) = .ok b1 ∧ pairFinish b1 j (!v2.isEmpty) = .ok b' :=
+  pairPosApply_moved b b' p p' j v1 v2 useX useY d ap h hne
+
+/-- **kerning pairs (record 2 empty): every glyph of `[idx, second]` outside the span's first cluster ends up
+    UNSAFE_TO_BREAK** whenever the pair changed a position — by a static value or by a device / variation delta alone.
+    On a monotone span (what GPOS sees), all cluster levels. -/
+theorem C03_pair_kerning_flagged (b b' : Buf) (p p' : Array Pos) (j : Nat) (v1 v2 : ValueRecordD) (useX useY : Bool)
+    (d : Dir) (ap : Bool) (h : pairPosApply b p (.records j v1 v2) useX useY d = .ok (b', p', ap)) (hne : p' ≠ p)
+    (h2 : v2.isEmpty = true) (hij : b.idx ≤ j) (he : j + 1 ≤ b.len) (hlen : b.len ≤ b.info.length)
+    (hu32 : ∀ k x, b.idx ≤ k → k < j + 1 → b.info[k]? = some x → x.cluster ≤ U32MAX)
+    (hmono : MonoRange b.info b.idx (j + 1)) :
+    ∃ m, IsRangeMin b.info b.idx (j + 1) m ∧
+      Upd b.info b'.info b.idx (j + 1) (neCl m) (orMask (Flag.UNSAFE_TO_BREAK ||| Flag.UNSAFE_TO_CONCAT)) ∧
+      b'.idx = j := by
+  obtain ⟨b1, hb1, hfin⟩ := pairPosApply_moved b b' p p' j v1 v2 useX useY d ap h hne
+  obtain ⟨b2, m, hb2, hmin, hupd, _⟩ := C03_interior b b.idx (j + 1) (by omega) he hlen hu32 hmono
+  rw [hb1] at hb2
+  cases hb2
+  simp only [pairFinish, h2, Bool.not_true] at hfin
+  cases hfin
+  exact ⟨m, hmin, hupd, rfl⟩
+
+-- non-vacuity of both: two glyphs in two clusters, record 1 = an x-advance device alone, ppem set, left to right
+example : ∃ (b b' : Buf) (p p' : Array Pos) (v1 v2 : ValueRecordD),
+    pairPosApply b p (.records 1 v1 v2) true false .ltr = .ok (b', p', true) ∧ p' ≠ p ∧ v2.isEmpty = true ∧
+    v1.xPlacement = 0 ∧ v1.yPlacement = 0 ∧ v1.xAdvance = 0 ∧ v1.yAdvance = 0 ∧
+    (b'.info.map (·.mask)) = [0, 3] :=
+  ⟨{ info := [{ cluster := 0 }, { cluster := 1 }], len := 2 },
+   { info := [{ cluster := 0 }, { cluster := 1, mask := 3 }], len := 2, idx := 1, scratch := SCRATCH_HAS_GLYPH_FLAGS },
+   #[{ xa := 600 }, { xa := 600 }], #[{ xa := 400 }, { xa := 600 }],
+   { xAdvDevice := some (-200) }, {}, by rfl, by decide, by decide, rfl, rfl, rfl, rfl, by decide⟩
+
+end RbModel.GposFlag
